@@ -25,8 +25,8 @@ import (
 )
 
 const (
-	// Maximum number of symlinks in a path.
-	slCountMax = 64
+	// Maximum number of symlinks in a path (MAXSYMLINKS of the Linux kernel).
+	slCountMax = 40
 )
 
 // MemIOFS implements a memory file system using the avfs.IOFS interface.
